@@ -47,21 +47,29 @@ type peerIdentity struct {
 }
 
 func deserializePeer(s string) (id peerIdentity, complete bool, err error) {
-	parts := strings.Split(s, ":")
-	if len(parts) != 4 {
-		return id, false, fmt.Errorf("invalid peer encoding: expected 'pid:ip:port:complete'")
+	// The ip field may itself contain ':' (IPv6 addresses), so the peer id is
+	// split off the front and the port and complete bit off the back.
+	errEncoding := fmt.Errorf("invalid peer encoding: expected 'pid:ip:port:complete'")
+	first := strings.Index(s, ":")
+	last := strings.LastIndex(s, ":")
+	if first < 0 || last <= first {
+		return id, false, errEncoding
 	}
-	peerID, err := core.NewPeerID(parts[0])
+	portSep := strings.LastIndex(s[:last], ":")
+	if portSep <= first {
+		return id, false, errEncoding
+	}
+	peerID, err := core.NewPeerID(s[:first])
 	if err != nil {
 		return id, false, fmt.Errorf("parse peer id: %s", err)
 	}
-	ip := parts[1]
-	port, err := strconv.Atoi(parts[2])
+	ip := s[first+1 : portSep]
+	port, err := strconv.Atoi(s[portSep+1 : last])
 	if err != nil {
 		return id, false, fmt.Errorf("parse port: %s", err)
 	}
 	id = peerIdentity{peerID, ip, port}
-	complete = parts[3] == "1"
+	complete = s[last+1:] == "1"
 	return id, complete, nil
 }
 
